@@ -140,6 +140,18 @@ def make_table(spec):
     else:
         names = [('n%d' % i) if i % 2 else i for i in range(k)]
     df = pd.DataFrame(X, columns=names)
+    ik = spec.get('index', 'default')
+    if ik == 'shuffled':
+        df.index = rng.permutation(n)
+    elif ik == 'offset':
+        df.index = np.arange(1000, 1000 + n)
+    elif ik == 'str':
+        df.index = ['r%d' % i for i in range(n)]
+    elif ik == 'duplicated':
+        df.index = np.arange(n) // 2
+    for c, kind in zip(names, spec['marginals']):
+        if kind == 'integer' and spec.get('int_dtype'):
+            df[c] = df[c].astype('int64')
     return df, {'S': S, 'dists': dists, 'Z': Z}
 
 
@@ -153,7 +165,9 @@ def random_table_spec(rng, tier, d=None, n=None, allow_constant=True, marg_pool=
         margs[0] = 'normal'
     return {'d': d, 'n': n or int(rng.choice([200, 1000, 5000] if tier == 'thorough' else [200, 1000])),
             'corr': str(rng.choice(CORR_KINDS)), 'marginals': margs,
-            'names': str(rng.choice(['str', 'int', 'unsorted', 'mixed'])), 'seed': int(rng.integers(1 << 31))}
+            'names': str(rng.choice(['str', 'int', 'unsorted', 'mixed'])), 'seed': int(rng.integers(1 << 31)),
+            'index': str(rng.choice(['default', 'default', 'shuffled', 'offset', 'str', 'duplicated'])),
+            'int_dtype': bool(rng.random() < 0.5)}
 
 
 def distribution_for(config, columns, rng):
